@@ -495,6 +495,7 @@ func (c *Ctx) doLookup(st *State, fr *Frame, x *ssa.Lookup) Value {
 	k := c.term(fr, x.Index, st)
 	m := c.term(fr, x.X, st)
 	if mt, ok := x.X.Type().Underlying().(*types.Map); ok {
+		c.checkMapAccess(st, fr, x, x.X, m, false)
 		val, ok2 := c.mapLookup(st, m, k, mt, false)
 		val = c.Name(st, "mv", val)
 		c.AssumeWF(st, val, mt.Elem())
